@@ -248,6 +248,8 @@ void execute_status(const Plan &plan, Verdict &v, bool c11, bool c12) {
     // firmware may install no error callback at all (C11 does not need it as an observer; C12 does)
     cfg.with_error_cb = !(c11 && !c12 && plan.k("no_error_cb", 0));
     if (!cfg.with_error_cb) COUNT("fault_no_error_callback_installed");
+    cfg.control_err = plan.k("control_err", 0) != 0;   // the SRQ transport fails (as examples/test-tcp-srq does when its control socket is gone)
+    if (cfg.control_err) COUNT("fault_srq_callback_reports_failure");
     World w(cfg);
     w.add_standard_commands();
     w.add_command("FW:ACT", [](World &ww) {
@@ -425,6 +427,7 @@ void generate_status(Rng &r, const GenOpts &g, Plan &p) {
     if (r.chance(1, 4)) p.knob["inbuf"] = r.range(40, 90);
     if (r.chance(1, 5)) p.knob["wr_mode"] = r.range(1, 3);
     if (r.chance(1, 8)) p.knob["no_error_cb"] = 1;
+    if (r.chance(1, 8)) p.knob["control_err"] = 1;
     long n = r.chance(1, 10) ? r.range(20, thorough ? 200 : 60) : r.range(1, 14);
     int fw_rate = (int) r.below(4);   // 0: none, 1: low, 2: even, 3: high
     for (long i = 0; i < n; i++) {
